@@ -23,6 +23,11 @@ RETS = [(None, ("void",)), ("String", ("str",)), ("i32", ("num",)), ("bool", ("b
 DIRS = ["", "commands", "commands/nested", "a/b/c/d", "my_target", "targets", "target_old", "git", "src_target/x", ".hidden", "mod.rs.d"]
 
 
+PARAM_LAYOUTS = [[], [("a", "i32")], [("a", "i32"), ("b", "String")], [("on_event", "Channel<String>")], [("on_a", "Channel<i32>"), ("on_b", "Channel<bool>")],
+                 [("app", "AppHandle"), ("on_event", "Channel<String>")], [("a", "i32"), ("on_event", "Channel<String>")], [("app", "AppHandle")],
+                 [("window", "tauri::Window"), ("a", "i32")], [("a", "i32"), ("b", "String")], []]
+
+
 def gen_project(rnd, idx):
     """-> (files[(path,text)], truth{name: dict}, decoys{name: origin}, features)"""
     nfiles = rnd.randint(1, 8)
@@ -41,12 +46,15 @@ def gen_project(rnd, idx):
         vis = rnd.choice(VIS)
         is_async = rnd.random() < 0.5
         ret, rshape = rnd.choice(RETS)
-        params = [("a", "i32"), ("b", "String")][: rnd.randint(0, 2)]
+        # parameter layouts select different wrapper templates (no parameters / plain / channels only / mixed / injected only)
+        params = rnd.choice(PARAM_LAYOUTS)
         pre = rnd.sample(OTHER_ATTRS, rnd.randint(0, 2))
         post = rnd.sample(OTHER_ATTRS, rnd.randint(0, 1))
         doc = rnd.choice([None, "does a thing", "#[tauri::command] is mentioned in this doc"])
         src = rg.command_src(name, params, ret, is_async, atext, vis, pre_attrs=pre, post_attrs=post, doc=doc)
-        return name, src, {"attr": akey, "vis": vis.strip() or "private", "async": is_async, "ret": rshape, "pre": len(pre), "post": len(post)}
+        layout = ("channels-only" if params and all(t.startswith("Channel") or t in ("AppHandle", "tauri::Window") for (_, t) in params) and any(t.startswith("Channel") for (_, t) in params)
+                  else "mixed" if any(t.startswith("Channel") for (_, t) in params) else "none" if not params else "plain")
+        return name, src, {"attr": akey, "vis": vis.strip() or "private", "async": is_async, "ret": rshape, "pre": len(pre), "post": len(post), "layout": layout}
 
     def decoy_items():
         out = []
@@ -145,7 +153,8 @@ def run_case(a):
         if g.run.timed_out:
             return {"inconclusive": "watchdog"}
         res = {"n_expected": len(truth), "n_decoys": len(decoys), "feats": sorted(feats), "viol": [], "files": len(files),
-               "max_depth": max(i["depth"] for i in truth.values()), "attrs": sorted({i["attr"] for i in truth.values()})}
+               "max_depth": max(i["depth"] for i in truth.values()), "attrs": sorted({i["attr"] for i in truth.values()}),
+               "layouts": [i["layout"] for i in truth.values()]}
         if g.run.rc != 0:
             res["viol"].append(("C03 generation-failed-although-commands-exist", "rc=%s stderr=%s" % (g.run.rc, g.run.err[-300:])))
             return dict(res, witness=proj.witness_of(files, mode))
@@ -163,7 +172,7 @@ def run_case(a):
                 seen.setdefault(c["invoke_name"], []).append((fname, c))
         for name, info in truth.items():
             got = seen.get(name, [])
-            cause = "attr=%s vis=%s async=%s" % (info["attr"], info["vis"], info["async"])
+            cause = "attr=%s vis=%s async=%s params=%s" % (info["attr"], info["vis"], info["async"], info["layout"])
             if not got:
                 extra = " unparsable-neighbour" if "unparsable-neighbour" in feats else ""
                 extra += "".join(" " + f for f in sorted(feats) if f.startswith("ancestor-dir"))
@@ -219,10 +228,12 @@ def run(tier):
             v.count("projects_with_" + f)
         v.count("projects_with_depth>=2", 1 if r["max_depth"] >= 2 else 0)
         attrs.update(r["attrs"])
+        for lay in r["layouts"]:
+            v.count("commands_with_params=%s_mode=%s" % (lay, job[3]))
         for (sig, what) in r["viol"]:
             v.violation(sig, what, r.get("witness"))
     v.extra["attribute_spellings_covered"] = sorted(attrs)
     rule = ("a case is one generated directory layout (1-8 files at depth 0-4, commands with varied attribute spelling / visibility / async / "
-            "neighbouring attributes, decoys of 9 kinds, target/ .git/ non-.rs and unparsable files); non-trivial = more than one file and at "
+            "neighbouring attributes / parameter layout (none, plain, channels only, mixed, injected), decoys of 9 kinds, target/ .git/ non-.rs and unparsable files); non-trivial = more than one file and at "
             "least one decoy; distinct by generator seed")
     return v.finish(rule, assumptions=["functions carrying the attribute inside impl blocks, traits, nested mods or fn bodies are not top-level items (DESIGN 4.2)"])
